@@ -43,6 +43,20 @@ var propDefs = map[string]*PropDef{
 			"TemplateSet.Debug is read without the lock (documented by upstream as the user's duty)",
 		},
 	},
+	"C15": {
+		ID: "C15", Funcs: "all", Floor: 8,
+		Unmech: []string{
+			"'equals rendering the source from which that whitespace was deleted by hand' is the composition of the proved steps: the dash is recognised on three-character delimiters only and marks the token; the parser asks a text node to trim a side exactly when the neighbouring delimiter on that side carries the mark; the node trims with strings.TrimLeft/TrimRight and the set space, tab, CR, LF, on the asked sides only",
+			"spaceless: the regular expression is library code (assumed); the loop applies it until nothing changes",
+		},
+	},
+	"C16": {
+		ID: "C16", Funcs: "all", Floor: 8,
+		Unmech: []string{
+			"that (line, col) equals the real line and byte column of the position: proved are the local steps (every move of pos moves col by the same amount; line changes only in run at a newline, where col restarts; tokens and error tokens snapshot startline/startcol, which are copied from line/col exactly when start is set to pos); the induction over the input is on paper",
+			"columns count bytes, not characters",
+		},
+	},
 	"C18": {
 		ID: "C18", Kinds: []string{}, Funcs: "all", Floor: 25,
 		Unmech: []string{
@@ -76,6 +90,13 @@ var propDefs = map[string]*PropDef{
 			"'gone after the construct, outer bindings intact' follows from: the construct writes only the child's fresh map (proved at every map update), the body runs in the child (proved at the call), and the child map is a copy (proved) - composition over nesting depth on paper",
 		},
 		Assume: []string{"map iteration is modelled with a ghost set of delivered keys (every key delivered exactly once)"},
+	},
+	"C06": {
+		ID: "C06", Funcs: "all", Floor: 15,
+		Unmech: []string{
+			"'a source without delimiters renders to itself' and concatenativity are the composition of: run emits every stretch of pending text as one HTML token carrying exactly that substring, drops only the verbatim delimiters and whole comments, and hands over to tokenize only at an opening delimiter; the parser wraps each HTML token in one node; the node writes the token text (trimmed only when a dash asked for it)",
+			"the state functions are reached through function values; that they are entered with nothing pending is assumed at their entry",
+		},
 	},
 	"C07": {
 		ID: "C07", Funcs: "all", Floor: 30,
